@@ -536,3 +536,12 @@ Example ex_progress_hyp :
   nth_error (pending (run _ ref_frow ex_evs1)) 9 = Some (ex_req 9 [10]) /\
   (completed (run _ ref_frow ex_evs1) + 1 + 1 <= completed (run _ ref_frow (ex_evs1 ++ ex_evs2)))%nat.
 Proof. vm_compute. repeat split; lia. Qed.
+
+(* quiescent_all_answered: the example schedule ends with an idle worker *)
+Example ex_quiescent : wk (run _ ref_frow (ex_evs1 ++ ex_evs2)) = Idle.
+Proof. vm_compute. reflexivity. Qed.
+
+(* bytes_roundtrip: float32 bit patterns are words (0.0, 1.0, a NaN with all bits set) *)
+Example ex_words : Forall is_word [0; 1065353216; 4294967295] /\
+  encode_words [1065353216] = [0; 0; 128; 63].
+Proof. split; [repeat constructor; unfold is_word; lia|vm_compute; reflexivity]. Qed.
